@@ -309,8 +309,10 @@ def resolve(spec, typeref, _names=None) -> dict:
         return {'variety': 'union', 'members': [resolve(spec, m, names) for m in typeref[1]], 'refs': list(typeref[1]),
                 'chain': ['xs:anySimpleType'], 'user': True}
     if kind == 'sc':
-        return {'variety': 'sc', 'content': resolve(spec, typeref[1], names), 'attrs': list(typeref[2]),
-                'chain': [], 'user': True}
+        content = resolve(spec, typeref[1], names)
+        # a complex type with simple content is derived (by extension) from its content's simple type
+        return {'variety': 'sc', 'content': content, 'attrs': list(typeref[2]), 'chain': list(content['chain']),
+                'user': True}
     if kind == 'scext':
         base = resolve(spec, typeref[1], names)
         return {'variety': 'sc', 'content': base['content'], 'attrs': base['attrs'] + list(typeref[2]),
